@@ -319,6 +319,10 @@ def merchant_history(draw, idx):
     cat = draw(st.sampled_from(CATS))
     n = draw(st.integers(1, 12))
     months = draw(st.lists(st.integers(0, 17), min_size=1, max_size=6))
+    if draw(st.integers(0, 3)) == 0:
+        # active in the SAME calendar month of two different years (Nov 2023 and Nov 2024 are two active months)
+        k = draw(st.integers(0, 5))
+        months = [k, k + 12] + months[:2]
     pays = []
     for _ in range(n):
         pays.append([draw(payment)[0], draw(st.sampled_from(months)), draw(st.integers(1, 28))])
